@@ -44,7 +44,9 @@ MANIFEST = {
             "with LF, CRLF or mixed line ends (buildDelimited_eq, build_delimited_records, build_delimited_records_lf), giving the "
             "end-to-end theorem passthrough_all_files: written bytes = the selected source lines, for every table and every "
             "program; the same for the k-line formats FASTQ / two-line FASTA (buildKLine_eq, build_kline_records, passthrough_kline). "
-            "For the SAM / BAM constructions the invariant is validated per explored input by a checker proved sound (invB_sound); the shipped record-end rule is refuted (buildOld_unsound). "
+            "and for SAM (buildSam_eq, build_sam_records, passthrough_sam: variable tag columns, LF/CRLF) and BAM (build_bam_records, "
+            "passthrough_bam: block_size-prefixed records). Every constructed extractor is additionally validated per explored "
+            "input by a checker proved sound (invB_sound); the shipped record-end rule is refuted (buildOld_unsound). "
             "Correspondence: real bnp.open/read/index/concatenate/replace/write on generated files of ten formats vs the Lean "
             "model vs the Lean spec vs a Python source-lines oracle.",
     "note": "NumPy indexing and npstructures ragged views are specified externals; GTF is read eagerly by design (not lazy), so its "
@@ -189,23 +191,34 @@ def bam_header_bytes():
     return out
 
 
-def bam_record(rng):
-    name = _name(rng).encode() + b"\x00"
+def bam_record_fields(rng):
+    """(record bytes, the BamEntry field values as this module spells them) — written from the SAM/BAM specification §4.2"""
+    name_s = _name(rng)
+    name = name_s.encode() + b"\x00"
     seq = _seq(rng, 9).upper()
     ncig = rng.choice([0, 1, 2, 3])
-    cigar = b"".join(struct.pack("<I", (rng.randrange(1, 300) << 4) | rng.randrange(0, 9)) for _ in range(ncig))
+    cig = [(rng.randrange(1, 300), rng.randrange(0, 9)) for _ in range(ncig)]
+    cigar = b"".join(struct.pack("<I", (n << 4) | o) for n, o in cig)
     code = {c: i for i, c in enumerate("=ACMGRSVTWYHKDBN")}
     sb = bytearray()
     for i in range(0, len(seq), 2):
         hi = code[seq[i]]
         lo = code[seq[i + 1]] if i + 1 < len(seq) else 0
         sb.append((hi << 4) | lo)
-    qual = bytes(rng.randrange(0, 60) for _ in seq)
+    quals = [rng.randrange(0, 60) for _ in seq]
+    qual = bytes(quals)
     tags = b"".join(rng.choice([b"NMC\x03", b"XSA+", b"MDZ12A\x00", b"XXi\xff\xff\xff\x7f"]) for _ in range(rng.choice([0, 0, 1, 2])))
-    body = struct.pack("<iiBBHHHiiii", rng.choice([0, 1, -1]), rng.randrange(0, 900), len(name), rng.randrange(0, 61),
-                       4680, ncig, rng.choice([0, 16, 99]), len(seq), rng.choice([-1, 0, 1]), rng.randrange(-1, 400),
-                       rng.randrange(-50, 50)) + name + cigar + bytes(sb) + qual + tags
-    return struct.pack("<i", len(body)) + body
+    ref, pos, mapq = rng.choice([0, 1, -1]), rng.randrange(0, 900), rng.randrange(0, 61)
+    flag = rng.choice([0, 16, 99])
+    body = struct.pack("<iiBBHHHiiii", ref, pos, len(name), mapq, 4680, ncig, flag, len(seq), rng.choice([-1, 0, 1]),
+                       rng.randrange(-1, 400), rng.randrange(-50, 50)) + name + cigar + bytes(sb) + qual + tags
+    vals = [{0: "chr1", 1: "c2", -1: "*"}[ref], name_s, str(flag), str(pos), str(mapq), "".join("MIDNSHP=X"[o] for _, o in cig),
+            ",".join(str(n) for n, _ in cig), seq, ",".join(str(q) for q in quals)]
+    return struct.pack("<i", len(body)) + body, vals
+
+
+def bam_record(rng):
+    return bam_record_fields(rng)[0]
 
 
 # ------------------------------------------------------------------ cases
